@@ -30,6 +30,7 @@ var checker = &vk.Checker[Case]{
 	Rule: "strictly ascending key lists (a) from a random prefix tree (1..60 keys, thorough up to 2000): deep nested prefixes, a key equal to the common prefix of its successors, single key, keys differing in byte 0, NUL and >= 0x80 bytes, empty key; " +
 		"(b) from a parameterised prefix tree (Spec: the case carries the parameters, the list is a pure function of them): nesting chains k, kk, kkk, ... and combs 2..900 levels deep (thorough 3000), 1..40 keys sharing 1..70 000 leading bytes (thorough 2^20), lists of 16..12 000 keys (thorough 150 000) of skewed / balanced / flat shape sharing 0..600 leading bytes; every size is drawn log-uniformly (each octave equally likely, octave ends 2^k-1, 2^k, 2^k+1 favoured). " +
 		"maxSize in {1,2,3,n-1,n,n+1..2n+3,2^31-1-d, log-uniform and uniform in 1..n}. The same list reaches the library as fresh exact strings, in a reused argument slice with canaries in its spare capacity, as substrings at odd addresses between foreign bytes, or as adjacent substrings of one packed buffer (a function of the case). " +
+		"The two returned slices of the last 8 cases stay under watch: after later calls (other keys; the same keys with another maxSize - the pool grid runs maxSize 1..7 back to back) they must still read as they did when they were returned, their spare capacity having been overwritten as a caller's append would. " +
 		"Validity predicate (many outputs may be right): len(B)==len(L)+1, B[0]==0, B strictly increasing, B[k]==n, every shard <= maxSize keys, L[j] == byte length of the longest common prefix of the shard computed naively over all its keys (key length for a single key), shard prefixes strictly ascending. Nothing else about where the cuts are is demanded. " +
 		"Grid: all subsets of size 1..6 of a 14-key pool x maxSize 1..7; full fan-out lists; very large generated key sets (70 001 and 2^18+7 keys) x maxSize {1,50,5000,n,2^31-4}; sweeps over nesting depth (2..1025, thorough 4097), common-prefix length (7..65 537, thorough 2^20+1) and number of keys (15..~10 000, thorough 131 071) at 2^k-1, 2^k, 2^k+1 and two more sizes per octave, the one-shard and sqrt(n) cases of the key-count sweep under every GOMAXPROCS setting of the second process; 70 001 keys x maxSize around 2^15 and 2^16. " +
 		"Non-trivial: n > maxSize and adjacent keys share common prefixes of >= 2 distinct byte lengths (nested splitting is needed). Distinct by hash of the case.",
@@ -220,7 +221,66 @@ func check(c Case) *vk.Failure {
 			return vk.Failf("argument-spare-capacity-written", "%s", msg)
 		}
 	}
+	watch(L, B, n, c.MaxSize)
 	return nil
+}
+
+var keep func(func() string)
+
+func init() { keep = checker.Keep }
+
+const keptFullRead = 1 << 14 // longer kept slices are re-read at their start, their end and a stride
+
+// changedAt: the first position (of those looked at) where got no longer holds what it held; -1 if none.
+func changedAt(got, want []int32) int {
+	n := len(want)
+	if len(got) != n {
+		return 0
+	}
+	if n <= keptFullRead {
+		for i := range want {
+			if got[i] != want[i] {
+				return i
+			}
+		}
+		return -1
+	}
+	for i := 0; i < 4096; i++ {
+		if got[i] != want[i] {
+			return i
+		}
+	}
+	for i := n - 1024; i < n; i++ {
+		if got[i] != want[i] {
+			return i
+		}
+	}
+	for i := 4096; i < n-1024; i += 61 {
+		if got[i] != want[i] {
+			return i
+		}
+	}
+	return -1
+}
+
+// watch puts the two slices of a (valid) answer under watch for the next cases (checker.Keep): after later
+// ShardByPrefix calls - other keys, or the same keys with another maxSize - L and B must still read as they
+// did when they were returned (private copies), so the pair is still the valid answer it was. Their spare
+// capacity is overwritten first: it is the caller's (append). L and B are []int32: they cannot share
+// memory with the []string argument, so nothing here depends on what happens to the argument later.
+func watch(L, B []int32, n int, maxSize int32) {
+	wantL, wantB := append([]int32(nil), L...), append([]int32(nil), B...)
+	vk.ScribbleI32(L)
+	vk.ScribbleI32(B)
+	keep(func() string {
+		if at := changedAt(L, wantL); at >= 0 {
+			return fmt.Sprintf("ShardByPrefix(%d keys, maxSize=%d) returned %d shards with prefix length L[%d] = %d, which now reads %d", n, maxSize, len(wantL), at, wantL[at], L[at])
+		}
+		if at := changedAt(B, wantB); at >= 0 {
+			return fmt.Sprintf("ShardByPrefix(%d keys, maxSize=%d) returned %d shards with boundary B[%d] = %d, which now reads %d", n, maxSize, len(wantL), at, wantB[at], B[at])
+		}
+		return ""
+	})
 }
 
 func classify(c Case) (bool, []string) {
